@@ -28,7 +28,7 @@ Variable qv : query -> list value.          (* values of a nested statement *)
 Definition evs (es : list (expr query)) : list value := flat_map ev es.
 
 Definition holder_values (h : holder query) : list value :=
-  match h with HEmpty => [] | HCond c => ev (to_simple_expr c) end.
+  match h with HEmpty => [] | HChain ms => flat_map (fun m => ev (snd m)) ms | HCond c => ev (to_simple_expr c) end.
 
 Definition tref_values (t : tref) : list value :=
   match t with
